@@ -450,6 +450,12 @@ func (inst *Instance) Open() error {
 func (inst *Instance) Call(role Role, name string, fn func()) *G {
 	w := inst.W
 	return w.S.Go(role, inst, name, func() {
+		if role != RoleStarter {
+			// API calls are served, and Stop is called, by code that has seen
+			// Start return (the node starts its API server after the wallet)
+			inst.startSeen.Lock()
+			inst.startSeen.Unlock()
+		}
 		defer func() {
 			if r := recover(); r != nil {
 				if wb, ok := r.(workBudgetExceeded); ok {
